@@ -509,8 +509,23 @@ class Engine:
             if self._check() != "sat":
                 return
             model = self.solver.model()
-        values = self._values(model)
-        self._pending.append((idx, msg, values))
+        # keep a few alternative witnesses: code whose behaviour depends on hash / set iteration order may
+        # fail concretely for some of them only
+        cands = [self._values(model)]
+        self.solver.push()
+        try:
+            if isinstance(cond, SymBool):
+                self.solver.add(z3.Not(cond.e))
+            for _ in range(5):
+                if not self._declared:
+                    break
+                self.solver.add(z3.Or(*[v != cands[-1][n] for n, v in self._declared.items()]))
+                if self._check() != "sat":
+                    break
+                cands.append(self._values(self.solver.model()))
+        finally:
+            self.solver.pop()
+        self._pending.append((idx, msg, cands))
 
     def observe(self, *vals):
         self._observed.append(vals)
@@ -592,16 +607,23 @@ class Engine:
 
     def _finish_path(self, fn):
         # failed obligations: confirm on the unpatched module with plain ints
-        for idx, msg, values in self._pending:
-            c, ab = run_concrete(fn, values)
-            if ab or idx >= len(c.proofs) or c.proofs[idx][0] != msg:
-                raise Inconclusive(f"concrete replay diverges from the symbolic path at obligation {msg!r} "
-                                   f"(inputs {values})")
-            if c.proofs[idx][1]:
-                raise Inconclusive(f"obligation {msg!r} fails symbolically but holds concretely for {values}: "
-                                   f"the encoding misrepresents the code")
+        for idx, msg, cands in self._pending:
+            confirmed, why = None, None
+            for values in cands:
+                c, ab = run_concrete(fn, values)
+                if ab or idx >= len(c.proofs) or c.proofs[idx][0] != msg:
+                    why = f"concrete replay diverges from the symbolic path at obligation {msg!r} (inputs {values})"
+                    continue
+                if c.proofs[idx][1]:
+                    why = (f"obligation {msg!r} fails symbolically but holds concretely for {values}: the encoding "
+                           f"misrepresents the code (or the code's behaviour depends on hash order)")
+                    continue
+                confirmed = values
+                break
+            if confirmed is None:
+                raise Inconclusive(why)
             if not any(m == msg for m, _ in self.failures):
-                self.failures.append((msg, values))
+                self.failures.append((msg, confirmed))
         if self.validate:
             if self._check() != "sat":
                 return
@@ -612,6 +634,14 @@ class Engine:
                 raise Inconclusive(f"self-validation: concrete run aborts where the symbolic path does not ({values})")
             sym_obs = [self._eval(model, o) for o in self._observed]
             if sym_obs != c.observed:
+                # The real code behaves differently from the symbolic run on the solver's own input
+                # (typically hash / set-iteration-order dependent code).  If the concrete run on the
+                # unpatched module breaks an obligation, that is a genuine, replayable violation.
+                bad = [m for m, ok in c.proofs if not ok]
+                if bad:
+                    if not any(m == bad[0] for m, _ in self.failures):
+                        self.failures.append((bad[0], values))
+                    return
                 raise Inconclusive(f"self-validation: symbolic and concrete outcomes differ for {values}: "
                                    f"{sym_obs[:6]} vs {c.observed[:6]}")
             self.validated += 1
